@@ -57,6 +57,7 @@ type Op struct {
 	Enc      string   `json:"enc,omitempty"`     // honest transfer encoding of the whole body: "" | gzip | snappy (framed stream format)
 	TTLHdr   string   `json:"ttl_hdr,omitempty"` // X-Ttl-Days header value
 	Retry    int      `json:"retry,omitempty"`   // the client sends the same body again (up to that many times) when it is answered 5xx
+	Async    string   `json:"async,omitempty"`   // X-Async-Insert header: "" | "0" (the sync pipeline) | "1" (the second, "async" pipeline of every insert service)
 	DSN      int      `json:"dsn,omitempty"`     // multi-node runs: 1-based index of the node named in X-CH-DSN; 0 = no header
 }
 
@@ -169,6 +170,7 @@ func genOp(rt *rapid.T, l string, timerMs int, pool [][][2]string, hostile bool)
 		op.Retry = rapid.IntRange(1, 2).Draw(rt, l+".retry")
 	}
 	op.DSN = rapid.SampledFrom([]int{1, 2, 1, 2, 1, 2, 0}).Draw(rt, l+".dsn")
+	op.Async = rapid.SampledFrom([]string{"", "", "", "0", "1", "1"}).Draw(rt, l+".async")
 	return op
 }
 
